@@ -22,6 +22,6 @@ theorem get_nth_pop_eq (rp : List Portion) (frag : Bool) (n v : Nat) (hn : n < 2
   repeat' (split at h)
   all_goals (first | (exfalso; exact Option.noConfusion h) | skip)
   all_goals simp_all
-  all_goals (intro hc; exfalso; omega)
+  all_goals (first | omega | (intro hc; exfalso; omega) | grind)
 
 end Nomt.GenFnCheck
